@@ -212,6 +212,19 @@ claim("C03", "translation_validation",
       "translation validation: compiled output of the real generator vs the executable TLA+ reference (Stepper.tla, "
       "slot mode) judged by TLC; programs are TLC-generated behaviours of ProgGen.tla")
 
+claim("C12", "model_checking",
+      "for sampled programs of the 'fortran' profile with user-type temporaries, moves, guards and early exits the "
+      "module emitted by the real generator is parsed into its memory-management skeleton; TLC executes the skeleton "
+      "on a heap model of the copy-on-write reference counting for initialize, up to 2/3 run calls and shutdown under "
+      "every valuation of the branch conditions (released once, no use of null/undefined/released storage, nothing "
+      "left allocated); a model violation is reported only when the compiled module shows an error of the same "
+      "class under AddressSanitizer/LeakSanitizer on a grid of guard inputs",
+      "trusted: the skeleton extractor (fails loudly on unknown counter statements; clean programs are spot-checked "
+      "under the sanitizer and an unpredicted report is a machinery failure); allocation never fails; programs are "
+      "sampled",
+      "TLA+ heap model (RefCount.tla) model-checked by TLC over the instruction skeleton extracted from the real "
+      "generator's output; counterexample classes confirmed by replaying input grids on the sanitizer-built binary")
+
 NOT_YET = "check not built yet (work in progress, see DESIGN.md section 11)"
 NOT_APPLICABLE = {}
 
